@@ -367,7 +367,7 @@ def clauses(tier):
             "truncated", check_truncated,
             "data section cut at a drawn byte (tail, read boundary, anywhere, almost nothing); every case is non-trivial",
             lambda: _file_cases(True), quick=800, thorough=16000,
-        ),
+         fuzz_runs=2500),
         Clause(
             "g711_tables", check_g711_code,
             "all 256 codes of each law, decoded with dtype None / int32 / uint8 (raw)",
